@@ -76,8 +76,18 @@ structure Core where
   m : State
   t : Tables := {}
 
-/-- replay of one record; result: new core, the model's observation, branch id, the parsed operation -/
-def step (c : Core) (kind : String) (args : List String) : Option (Core × List String × String) :=
+/-- the accounting token the harness appends to every mutating operation when the memory cache is on:
+TotalBytes/NumEntries as reported, bytes/number of the entries present -/
+def acctTok (s : State) : List String :=
+  if s.cfg.memEnabled then
+    [s!"acct={s.mem.total}/{MemCache.numEntries s.mem}/{MemCache.stored s.mem}/{MemCache.numEntries s.mem}"]
+  else []
+
+def mutating : List String :=
+  ["createUpload", "writeUpload", "commit", "createCache", "writeBlob", "genMeta", "drain", "ttl", "delete"]
+
+/-- replay of one record; result: new core, the model's observation, branch id -/
+def step1 (c : Core) (kind : String) (args : List String) : Option (Core × List String × String) :=
   let H := c.t.H
   let crc := c.t.crcOf
   match kind, args with
@@ -144,8 +154,12 @@ def step (c : Core) (kind : String) (args : List String) : Option (Core × List 
       (if (metainfo c.m n).isSome then "+mi" else "")
     some (c, o, br)
   | "op", ["list"] => some (c, [listTok (sortDedup (listed c.m))], "list")
-  | "op", ["total"] =>
-    some (c, [toString c.m.mem.total, toString (MemCache.numEntries c.m.mem)], "total")
   | _, _ => none
+
+def step (c : Core) (kind : String) (args : List String) : Option (Core × List String × String) := do
+  let (c', obs, br) ← step1 c kind args
+  if kind = "op" ∧ (args.headD "") ∈ mutating ∧ obs.head? ≠ some "upload-content" then
+    pure (c', obs ++ acctTok c'.m, br)
+  else pure (c', obs, br)
 
 end CAStoreRepl
